@@ -704,6 +704,32 @@ func (e *pathEngine) evalCond(v Val) (bool, bool) {
 	if !ok {
 		return false, false
 	}
+	// x == nil / x != nil where x resolves on the path to a value that is nil or cannot be nil
+	if bin.Op == token.EQL || bin.Op == token.NEQ {
+		xv, yv := e.resolve(Val{bin.X, r.F, r.E}), e.resolve(Val{bin.Y, r.F, r.E})
+		if isNilConst(xv.V) {
+			xv, yv = yv, xv
+		}
+		if isNilConst(yv.V) {
+			known, isNil := false, false
+			if _, isMI := xv.V.(*ssa.MakeInterface); isMI {
+				return bin.Op == token.NEQ, true // an interface made from a concrete value is never nil
+			}
+			switch sv := stripConv(xv.V).(type) {
+			case *ssa.MakeClosure, *ssa.Function, *ssa.Alloc, *ssa.MakeChan, *ssa.MakeMap, *ssa.MakeSlice:
+				known = true
+			case *ssa.Const:
+				if sv.Value == nil {
+					if _, isBasic := sv.Type().Underlying().(*types.Basic); !isBasic {
+						known, isNil = true, true
+					}
+				}
+			}
+			if known {
+				return (bin.Op == token.EQL) == isNil, true
+			}
+		}
+	}
 	x, okx := constInt(e.resolve(Val{bin.X, r.F, r.E}).V)
 	y, oky := constInt(e.resolve(Val{bin.Y, r.F, r.E}).V)
 	if !okx || !oky {
@@ -876,4 +902,23 @@ func (e *pathEngine) structField(sv Val, idx int, depth int) (Val, bool) {
 		return Val{}, false
 	}
 	return e.allocField(Val{al, base.F, base.E}, al, idx, depth)
+}
+
+
+// goTargetsOn: the functions a go statement starts on this path: when the spawned function value
+// resolves on the path to one function or closure (a method value chosen by a helper), that one;
+// otherwise every target of the call graph.
+func (p *Path) goTargetsOn(ev Event, g *ssa.Go) []*ssa.Function {
+	w := p.eng.w
+	if g.Call.StaticCallee() == nil && !g.Call.IsInvoke() {
+		switch x := p.stripR(p.val(ev, g.Call.Value)).V.(type) {
+		case *ssa.MakeClosure:
+			if f, ok := x.Fn.(*ssa.Function); ok {
+				return []*ssa.Function{boundTarget(f)}
+			}
+		case *ssa.Function:
+			return []*ssa.Function{boundTarget(x)}
+		}
+	}
+	return w.goTargets(g)
 }
